@@ -6,6 +6,7 @@ import (
 	"fmt"
 	"math/big"
 	"os"
+	"strings"
 	"testing"
 	"testing/synctest"
 	"time"
@@ -357,14 +358,26 @@ func runSubSettleBehaviour(t *testing.T, res *drv.Result, cfg subCfg, steps []wS
 				_ = r.sub["A"].Close()
 				_ = r.sub["B"].Close()
 				w.Quiesce()
-			case "AdvRegister", "AdvConclude":
+			case "AdvRegister", "AdvRegisterEchoS", "AdvConclude":
 				advIdx := channel.Index(0)
 				if adv == "B" {
 					advIdx = 1
 				}
 				var tx *channel.Transaction
 				wv := -2 // -2: the registered version of S
-				if a.Name == "AdvRegister" {
+				var echoDone chan error
+				echoFired := false
+				if a.Name == "AdvRegisterEchoS" { // the adversary's payment in S waits for the honest user, who answers inside the refutation
+					echoDone = r.start(r.sub, adv, 1, false)
+					w.Quiesce()
+					w.Ledger.Hook = func(who, ev string, _ channel.ID, _ uint64) {
+						if who == hon && !echoFired { // the honest watcher's refutation was accepted; its events are not emitted yet
+							echoFired = true
+							r.answer(r.sub, hon, true)
+						}
+					}
+				}
+				if a.Name != "AdvConclude" {
 					v := a.Args[0].(int)
 					wv = a.Args[1].(int)
 					tx = r.enabledTx(adv, r.pid, v+r.pvOff)
@@ -399,8 +412,21 @@ func runSubSettleBehaviour(t *testing.T, res *drv.Result, cfg subCfg, steps []wS
 					subStates[la.ID] = stx.State
 				}
 				req := channel.AdjudicatorReq{Params: r.par[adv].Params(), Idx: advIdx, Tx: *tx}
-				if a.Name == "AdvRegister" {
-					if err := r.party[adv].Backend.Register(context.Background(), req, subs); err != nil {
+				if a.Name != "AdvConclude" {
+					err := r.party[adv].Backend.Register(context.Background(), req, subs)
+					if echoDone != nil {
+						w.Sleep(100 * time.Millisecond)
+						w.Ledger.Hook = nil
+						select {
+						case <-echoDone:
+						default:
+						}
+						if !echoFired {
+							viol("conformance", "adv-register-echo", "the honest watcher's refutation was not observed", k+1)
+							return
+						}
+					}
+					if err != nil {
 						viol("conformance", "adv-register-refused", fmt.Sprintf("the ledger refused the adversary's registration %s: %v", a.Label, err), k+1)
 						return
 					}
@@ -454,7 +480,13 @@ func runSubSettleBehaviour(t *testing.T, res *drv.Result, cfg subCfg, steps []wS
 				regv, concluded, _ := w.Ledger.Registered(r.pid)
 				want := int64(InitialDeposit) - r.fund + own
 				if !concluded || r.acct(hon) < want {
-					viol("monitor", "honest-robbed", fmt.Sprintf("after %s: %s's newest agreed states are ledger channel v%d / sub-channel v%d, worth %d to it; the ledger concluded v%d and %s owns %d (< %d)", a.Label, hon, pv, sv, own, regv, hon, r.acct(hon), want), k+1)
+					sigr := "honest-robbed"
+					for _, lb := range labels[:k+1] {
+						if strings.HasPrefix(lb, "AdvRegisterEchoS") {
+							sigr = "honest-robbed|accepted-during-refutation"
+						}
+					}
+					viol("monitor", sigr, fmt.Sprintf("after %s: %s's newest agreed states are ledger channel v%d / sub-channel v%d, worth %d to it; the ledger concluded v%d and %s owns %d (< %d)", a.Label, hon, pv, sv, own, regv, hon, r.acct(hon), want), k+1)
 					return
 				}
 			}
@@ -488,6 +520,11 @@ func runSubSettleBehaviour(t *testing.T, res *drv.Result, cfg subCfg, steps []wS
 		select {
 		case <-holdDone:
 		default:
+		}
+		if os.Getenv("VERIF_DEBUG") != "" {
+			for _, e := range w.Ledger.Log {
+				fmt.Fprintf(os.Stderr, "LEDGER %+v\n", e)
+			}
 		}
 	})
 }
